@@ -61,7 +61,7 @@ class Driver:
             ev.append(("fp", i))
         for i, r in enumerate(names):
             if r in ("v", "c", "d"):
-                for op in ("w_int", "w_slice", "w_mask", "w_idx", "w_idxdup", "w_promote", "w_none", "w_swap"):
+                for op in ("w_int", "w_slice", "w_mask", "w_idx", "w_idxdup", "w_idxdup2", "w_promote", "w_none", "w_swap"):
                     ev.append((op, i))
         t = names.index("t")
         for op in ("tw_cell", "tw_row", "tw_col", "tw_colscalar", "tw_region", "t_setattr_d", "t_setattr_list", "rebind_c", "read"):
@@ -75,11 +75,11 @@ class Driver:
         op = ev[0]
         if op == "init":
             v = Vector([1, 2, 3], name="v")
-            t = Table({"a": [1, 2], "b": [3, 4]})
+            t = Table({"a": [1, 2, 3], "b": [4, 5, 6]})
             sl.append(Slot("vec", v, meta={"role": "v"}))
             sl.append(Slot("tab", t, meta={"role": "t"}))
             sl.append(Slot("col", t["a"], meta={"role": "c"}))
-            sl.append(Slot("vec", Vector([7, 8], name="d"), meta={"role": "d"}))
+            sl.append(Slot("vec", Vector([7, 8, 9], name="d"), meta={"role": "d"}))
             return Outcome(readonly=True)
         x = sl[ev[1]].obj
 
@@ -115,6 +115,8 @@ class Driver:
                 return guarded(lambda: x.__setitem__([n - 1, 0], [val(u[n - 1]), val(u[0])]))
             if op == "w_idxdup":
                 return guarded(lambda: x.__setitem__([0, n - 1, 0], [val(u[0]), val(u[n - 1]), val(val(u[0]))]))
+            if op == "w_idxdup2":       # the same position named twice, fewer updates than elements (negative alias of the index)
+                return guarded(lambda: x.__setitem__([1, 1 - n], [val(u[1]), val(val(u[1]))]))
             if op == "w_promote":
                 return guarded(lambda: x.__setitem__(0, (u[0] if isinstance(u[0], (int, float)) and not isinstance(u[0], bool) else 0) + 0.5))
             if op == "w_none":
@@ -131,11 +133,11 @@ class Driver:
         if op == "tw_colscalar":
             return guarded(lambda: T.__setitem__((slice(None), 0), val(T._underlying[0]._underlying[0])))
         if op == "tw_region":
-            src = Table({"p": [world.fresh() + 60, world.fresh() + 60], "q": [world.fresh() + 60, world.fresh() + 60]})
-            return guarded(lambda: T.__setitem__((slice(0, 2), slice(0, 2)), src))
+            src = Table({"p": [world.fresh() + 60 for _ in range(3)], "q": [world.fresh() + 60 for _ in range(3)]})
+            return guarded(lambda: T.__setitem__((slice(0, 3), slice(0, 2)), src))
         if op in ("t_setattr_d", "t_setattr_list"):
             d = [s.obj for s in sl if s.meta["role"] == "d"][0]
-            value = d if op == "t_setattr_d" else [world.fresh() + 70, world.fresh() + 70]
+            value = d if op == "t_setattr_d" else [world.fresh() + 70 for _ in range(3)]
             return guarded(lambda: setattr(T, "a", value))
         if op == "rebind_c":
             ci = [i for i, s in enumerate(sl) if s.meta["role"] == "c"][0]
